@@ -44,7 +44,7 @@ def run(ctx):
                  'Guard rules (LIN-1 length cap of the memcmp-confirming vector searcher, LIN-2 every Rabin-Karp '
                  'call guarded by a constant length bound, LIN-3 adaptive prefilter shut-off present and consulted), '
                  'decided by dominance + derived-from queries on MIR, plus LIN-4 from the E2 engine: every constructed large-period '
-                 'Two-Way shift is >= len/2 and every constructed vector searcher has its needle length capped by a constant. These are NECESSARY conditions for linear work; '
+                 'Two-Way shift is >= len/2 and every constructed vector searcher has its needle length capped by a constant; and LIN-5: the suffix scans of the Two-Way preprocessing have a strictly increasing, linearly bounded potential. These are NECESSARY conditions for linear work; '
                  'this check does NOT bound executed steps, does not decide linearity of Two-Way (period memory) or of '
                  'preprocessing, and gives no constant.',
                  trusted_base=['rustc nightly MIR', 'mcsa exporter', 'dominator computation'],
@@ -230,4 +230,15 @@ def run(ctx):
             det = s_['detail'] if s_['ok'] else '; '.join(f"[{c}] root {r} ({v}): {d}" for c, r, v, d in s_['fail'][:2])
             rep.add('LIN-4/' + kind, f"{path}|{role}", s_['ok'], where=s_['loc'], cfg=','.join(sorted(s_['cfgs'])), detail=(det or '')[:500])
     rep.floor('LIN-4-sites', n4, 3)
+    # ---------------- LIN-5 (E2): the suffix scans of Two-Way's preprocessing do linear work -- a potential function that
+    # strictly increases per iteration and is bounded by 3 * needle.len()
+    rsites, _, rerrs = e2common.root_table(ctx, cfgs, r'^arch::all::twoway::(Finder|FinderRev)::new$', ('SUFFIX-RANK',))
+    for cfg_, root_, err_ in rerrs:
+        rep.add('E2-ROOT', root_, False, cfg=cfg_, detail=err_.splitlines()[0][:300])
+    n5 = 0
+    for (kind, path, role), s_ in sorted(rsites.items()):
+        n5 += 1
+        det = s_['detail'] if s_['ok'] else '; '.join(f"[{c}] root {r} ({v}): {d}" for c, r, v, d in s_['fail'][:2])
+        rep.add('LIN-5/' + kind, f"{path}|{role}", s_['ok'], where=s_['loc'], cfg=','.join(sorted(s_['cfgs'])), detail=(det or '')[:500])
+    rep.floor('LIN-5-sites', n5, 2)
     return rep
